@@ -6,7 +6,7 @@ ID = "C14"
 LEVEL = "exploration"
 TECHNIQUE = "complete enumeration of the five opcode tables, their service-action tables, the status table and all 256 opcode values against an independent T10 table"
 RULE = ("every named entry of spc/sbc/ssc/smc/mmc, every entry of every service-action table, every SCSI_STATUS entry, every pair "
-        "of sets sharing a name, and init_cdb for each of the 256 opcode values. Non-trivial = the oracle has its own T10 value "
+        "of sets sharing a name, every name of any set looked up on every set (refused, or the T10 value; tables unchanged afterwards), and init_cdb for each of the 256 opcode values. Non-trivial = the oracle has its own T10 value "
         "for the entry (or a length/refusal expectation for the opcode value); distinct = distinct (kind, set, name|value).")
 ASSUMPTIONS = [
     "oracle: vf/spec/opcodes.py transcribed from T10 op-num / SPC-4 / SBC-3 / SSC-4 / SMC-3 / MMC-6 / SAM-5 (cross-checked at setup against scsi/scsi.h and linux/cdrom.h)",
@@ -23,7 +23,37 @@ def _sets():
 
 
 def partitions(tier):
-    return [["tables"], ["init_cdb"]]
+    return [["tables"], ["init_cdb"], ["lookups"]]
+
+
+def t10_any(name):
+    """T10 value of a command name irrespective of the set (for names a set does not list itself)"""
+    vals = {T.t10_value(s, name) for s in SETS} - {None}
+    return vals
+
+
+def check_lookup(setname, name):
+    """looking a name up on a set that does not list it: either it is refused, or what comes back has the T10 value of that name;
+    every table is walked again afterwards"""
+    E, sets = _sets()
+    st = sets[setname]
+    before = list(st.keys)
+    out = []
+    try:
+        op = getattr(st, name)
+    except AttributeError:
+        op = None
+    except Exception as e:   # noqa: BLE001
+        return [("lookup/raises", "%s.%s raised %s: %s" % (setname, name, type(e).__name__, e))]
+    after = list(st.keys)
+    if op is not None and name not in before:
+        want = t10_any(name)
+        v = getattr(op, "value", None)
+        if want and v not in want:
+            out.append(("lookup/alias_value/%s.%s" % (setname, name), "%s.%s resolves to %r although the set does not list it; T10 assigns %s to that name"
+                        % (setname, name, ("%#04x" % v) if isinstance(v, int) else v, sorted("%#04x" % x for x in want))))
+    # (a table that merely grows by a correctly valued alias does not contradict this property; the values are walked again afterwards)
+    return out
 
 
 def check_entry(setname, key):
@@ -79,6 +109,8 @@ def run_case(case):
         a, b, key = case[1:]
         va, vb = getattr(sets[a], key).value, getattr(sets[b], key).value
         return [("samename/%s" % key, "%s is %#04x in %s and %#04x in %s" % (key, va, a, vb, b))] if va != vb else []
+    if kind == "lookup":
+        return check_lookup(case[1], case[2])
     if kind == "status":
         E, sets = _sets()
         v = getattr(E.SCSI_STATUS, case[1])
@@ -106,8 +138,22 @@ def run_partition(part, tier, seed):
             acc.violation(key, what, case)
         acc.outcome((tuple(case), tuple(k for k, _ in v)))
 
-    if part[0] == "init":
-        pass
+    if part[0] == "lookups":
+        names = sorted({k for s in SETS for k in sets[s].keys} | {"READ_CAPACITY_16", "SYNCHRONIZE_CACHE_12", "WRITE_SAME_32", "READ_6", "INQUIRY_6"})
+        for s in SETS:
+            for nm in names:
+                do(["lookup", s, nm], nontrivial=nm not in sets[s].keys)
+        # afterwards the tables are walked again: every value must still be the T10 one
+        for s in SETS:
+            for key in sets[s].keys:
+                if T.t10_value(s, key) is not None or t10_any(key):
+                    v = getattr(sets[s], key).value
+                    want = {T.t10_value(s, key)} - {None} or t10_any(key)
+                    acc.evaluations += 1
+                    if v not in want:
+                        acc.violation("lookup/table_value_after_use/%s.%s" % (s, key), "after the lookups %s.%s = %#04x, T10 assigns %s"
+                                      % (s, key, v, sorted("%#04x" % x for x in want)), ["op", s, key])
+        return acc
     if part[0] == "init_cdb":
         for v in range(256):
             do(["init", v])
